@@ -3420,6 +3420,12 @@ def vdot(a: Array, b: Array) -> ArrayOrScalar:
     """
     import pytato as pt
 
+    if isinstance(a, Array) and isinstance(b, Array):
+        from pytato.utils import are_shape_components_equal
+        if not are_shape_components_equal(a.size, b.size):
+            raise ValueError("vdot: arguments must have the same size, got shapes"
+                             f" {a.shape} and {b.shape}")
+
     if isinstance(a, Array) and a.ndim > 1:
         a = a.reshape(-1)
     if isinstance(b, Array) and b.ndim > 1:
